@@ -12,11 +12,18 @@ What is proved (Lean) and what is regenerated:
     written twice, no `<term>Map` form of a text property collides with another property's term, every
     row writes the property under the term the struct tag declares, with the helper that produces the
     prescribed JSON kind for the field's Go type.
-The assembly of members into an object (commas, braces) and the nesting of values are covered by the
-oracle (independent parser: encoding/json) only.
+  * the assembly of members into an object (commas, braces, the `notEmpty` flag), the array writers and
+    the language map writer, at the byte level (`Model/JsonBytes.lean`, `Model/JsonRender.lean`):
+    `C02_bytes` — for EVERY value tree the bytes the struct writers produce are exactly the canonical
+    rendering of the JSON tree the deep model of C01 writes (one value: members between one pair of
+    braces, separated by single commas, every member name a quoted plain term; or nothing at all), given
+    the statement forms regenerated from the source (`Generated/WriteForms.lean`) and the obligations on
+    them (`C02_forms`, `C02_delegations`, `C02_terms_plain`).
 -/
 import APModel.Props.C01
 import APModel.Props.C06
+import APModel.Theory.JsonRender
+import APModel.Model.JsonEnv
 
 namespace APModel.Codec
 open APModel APModel.Generated
@@ -99,3 +106,111 @@ example : readText (writeText [34, 44, 34, 116, 121, 112, 101, 34, 58, 34, 68, 1
     some ([34, 44, 34, 116, 121, 112, 101, 34, 58, 34, 68, 101, 108, 101, 116, 101], [34, 125]) := by decide
 
 end APModel.Text
+
+namespace APModel.JRender
+open APModel APModel.Codec APModel.Deep APModel.JBytes APModel.Generated
+
+/-! ### the byte level -/
+
+theorem qText_ne (s : Str) : qText s ≠ [] := by simp [qText, Text.writeText]
+
+theorem qText_last (s : Str) : (qText s).getLast? ≠ some 44 := by
+  have : qText s = (Text.quote :: Text.esc (s.map (·.toNat))).map UInt8.ofNat ++ [UInt8.ofNat Text.quote] := by
+    simp [qText, Text.writeText]
+  rw [this, List.getLast?_append]
+  simp [Text.quote]
+
+/-- a write row of the model comes from the regenerated tables -/
+theorem wrow_mem (sn n : String) (w : WRow) (h : envJson.wrow sn n = some w) : w ∈ allWRows := by
+  have hm : w ∈ jsonW sn := List.mem_of_find?_eq_some h
+  unfold allWRows
+  rw [List.mem_flatMap]
+  unfold jsonW at hm
+  cases he : jsonEntries.find? (fun e => e.1 == sn) with
+  | none => simp [he] at hm
+  | some e =>
+    have hes : e.1 = sn := by simpa using List.find?_some he
+    refine ⟨e, List.mem_of_find?_eq_some he, ?_⟩
+    rw [hes]
+    unfold jsonW
+    rw [he]
+    simpa [he] using hm
+
+/-- obligation on the regenerated tables: every term, and its `…Map` form, is plain — written by the
+string writer it is itself between quotes (so `JSONWritePropName`, which does not escape, writes what a
+JSON string writer would) -/
+theorem C02_terms_plain : allWRows.all (fun w => plainTerm w.term && plainTerm (w.term ++ "Map")) = true := by
+  decide +kernel
+
+/-- obligation on the regenerated statement forms: every property statement of every struct writer is
+`notEmpty = H(...) || notEmpty`, except these plain assignments (the first statement of a writer, and
+the ones in front of helpers that cannot answer false: integer writers behind a `> 0` guard, the list
+writer behind a non-empty guard); none is `notEmpty || H(...)`, none discards the answer -/
+theorem C02_forms :
+    writeEvents.all (fun e => e.2.all (fun ev =>
+      ev.1 != "row" || ev.2.2 == "orAfter" ||
+      (ev.2.2 == "assign" && [("JSONWriteObjectValue", "id"), ("JSONWriteLinkValue", "id"), ("JSONWriteLinkValue", "height"),
+        ("JSONWriteLinkValue", "width"), ("Actor.MarshalJSON", "streams"), ("PublicKey.MarshalJSON", "id"),
+        ("Source.MarshalJSON", "mediaType")].contains (e.1, ev.2.1)))) = true := by
+  decide +kernel
+
+/-- obligation on the delegations: a struct writer hands its buffer to another writer either as the
+condition of its final `if` (the flag is that writer's answer), or as `D(...) || notEmpty`, or as a
+plain assignment that is the FIRST statement (nothing written before can be forgotten) -/
+theorem C02_delegations :
+    (delEvents writeEvents).all (fun d =>
+      d.2.2.2 == "cond" || d.2.2.2 == "orAfter" || (d.2.2.2 == "assign" && d.2.1 == 0)) = true := by
+  decide +kernel
+
+theorem hyp_envJson (leaf : FVal → Buf) (hl : ∀ v, leaf v ≠ [] ∧ (leaf v).getLast? ≠ some 44) :
+    Hyp envJson ⟨qText, leaf⟩ := by
+  refine ⟨⟨qText_ne, qText_last, fun v => (hl v).1, fun v => (hl v).2⟩, rfl, ?_⟩
+  intro sn n w sfx hw hs
+  have hmem := wrow_mem sn n w hw
+  have hall := List.all_eq_true.mp C02_terms_plain w hmem
+  simp only [Bool.and_eq_true, plainTerm, Bool.not_eq_true', beq_iff_eq] at hall
+  rcases hs with rfl | rfl
+  · simp only [String.append_empty]
+    exact ⟨by intro e; simp [e] at hall, hall.1.2⟩
+  · exact ⟨by intro e; simp [e] at hall, hall.2.2⟩
+
+/-- **C02 at the byte level, for the code's own tables and statement forms.**  For EVERY value tree `x`
+(any struct, any properties, nested to any depth) and any way of writing numbers, booleans, instants and
+durations that writes something not ending in a comma: the bytes `<T>.MarshalJSON` produces — by
+appending members to a buffer, deciding about each comma by looking at the buffer's last byte, and
+threading the `notEmpty` flag through every statement in the form the source gives it — are exactly the
+canonical rendering of the JSON tree the deep model writes for `x`, or no bytes at all when the tree
+model writes nothing.  Precondition `okItem`: wherever a plain assignment statement met a value, its
+helper had something to write (decidable; `C02_forms` lists those statements). -/
+theorem C02_bytes (leaf : FVal → Buf) (hl : ∀ v, leaf v ≠ [] ∧ (leaf v).getLast? ≠ some 44) (x : Item)
+    (hok : okItem envJson envForms ⟨qText, leaf⟩ x = true) :
+    bItem envJson envForms ⟨qText, leaf⟩ x = renderOpt ⟨qText, leaf⟩ (writeItem envJson x) :=
+  b_item envJson envForms ⟨qText, leaf⟩ (hyp_envJson leaf hl) x hok
+
+/-- … for any tables, forms and scalar writers (the statement the instance above is drawn from) -/
+theorem C02_bytes_generic (E : Env) (fm : Forms) (F : Fmt) (H : Hyp E F) (x : Item)
+    (hok : okItem E fm F x = true) : bItem E fm F x = renderOpt F (writeItem E x) :=
+  b_item E fm F H x hok
+
+/-! why the forms matter: the two unsound forms on a two-member object (kernel-decided witnesses on the
+bookkeeping itself) -/
+
+/-- `notEmpty = notEmpty || H(...)`: the second member is never written -/
+theorem C02_orBefore_drops :
+    writeObject [⟨[97], [49], .orAfter⟩, ⟨[98], [50], .orBefore⟩] = specObject [⟨[97], [49], .orAfter⟩] := by
+  decide +kernel
+
+/-- a plain assignment in front of a helper that answers false forgets the member before it: nothing is
+written at all (the defect repaired in `Source.MarshalJSON`) -/
+theorem C02_assign_forgets :
+    writeObject [⟨[97], [49], .orAfter⟩, ⟨[98], [], .assign⟩] = [] ∧
+    specObject [⟨[97], [49], .orAfter⟩, ⟨[98], [], .assign⟩] ≠ [] := by
+  decide +kernel
+
+/-! non-vacuity: the sample Create of C01 (nested Note, language map, lists) meets the precondition -/
+def leaf0 : FVal → Buf := fun _ => [48]
+example : okItem envJson envForms ⟨qText, leaf0⟩ sampleCreate = true := by decide +kernel
+example : bItem envJson envForms ⟨qText, leaf0⟩ sampleCreate = renderOpt ⟨qText, leaf0⟩ (writeItem envJson sampleCreate) :=
+  C02_bytes leaf0 (by intro v; simp [leaf0]) sampleCreate (by decide +kernel)
+
+end APModel.JRender
